@@ -35,7 +35,9 @@ SEED_CHECKS = {'C01-a': ['C01', 'C12'], 'C12-a': ['C12'], 'C13-a': ['C13'], 'C05
                'C08-h': ['C08'], 'C09-h': ['C09', 'C10'], 'C10-h': ['C10'], 'C11-h': ['C11'], 'C12-h': ['C12'], 'C13-h': ['C13'], 'C15-h': ['C15'], 'C16-f': ['C16'],
                'C17-h': ['C17'], 'C18-h': ['C18'], 'C19-a': ['C19'],
                'C02-i': ['C02', 'C05'], 'C04-i': ['C04', 'C02'], 'C06-i': ['C06', 'C18'], 'C07-i': ['C07'], 'C09-i': ['C09'], 'C11-i': ['C11'], 'C12-i': ['C12'],
-               'C13-i': ['C13'], 'C15-i': ['C15'], 'C16-g': ['C16'], 'C17-i': ['C19'], 'C19-b': ['C19', 'C17']}
+               'C13-i': ['C13'], 'C15-i': ['C15'], 'C16-g': ['C16'], 'C17-i': ['C19'], 'C19-b': ['C19', 'C17'],
+               'C01-i': ['C01', 'C02'], 'C03-i': ['C03', 'C08'], 'C05-i': ['C05', 'C07'], 'C08-i': ['C08'], 'C10-i': ['C10', 'C02']}
+# kept but not expected to be detected (see its meta.json and DESIGN section 5): C18-i
 
 
 def run(pid):
